@@ -88,7 +88,10 @@ def order_unsafe(xml):
         bad = scan(c) or bad
     return bad
   w = root.find('worldbody')
-  return bool(w is not None and scan(w))
+  if w is None:
+    return False
+  # bodies: a direct child body between two frames that contain bodies is written after both frames
+  return bool(scan(w)) or any(True for _ in w.iter('frame')) or any(True for _ in w.iter('replicate'))
 
 
 def name_orders(lib, m):
@@ -188,30 +191,23 @@ class C32:
       diffs = modelcmp.compare(lib, m, m2, mode='upstream', skip=('signature',))
       if diffs:
         msg = '%s: save/reload at full precision changes the model: %s' % (name, modelcmp.fmt(diffs))
-        dropped = self.explained_by_dropped_directive(m, spec, text, filedir)
         if m.nmesh and all(d.kind == 'float' and d.err < MESH_F32_TOL for d in diffs):
           # mesh vertices/normals are stored and saved as 32-bit floats: quantities derived from a mesh that was first
           # processed in double precision (file or inline input) reproduce only to float32 accuracy
           ck.label('mesh-float32-accuracy')
           facts['meshf32'] = max(d.err for d in diffs)
           self.worst_meshf32 = max(getattr(self, 'worst_meshf32', 0.0), facts['meshf32'])
-        elif dropped:
-          for attr in dropped:
-            ck.violation(msg + '  [the writer does not save <compiler %s>; with the attribute re-inserted into the saved '
-                         'text the models are identical]' % attr, replay, bucket='compiler-%s-not-saved' % attr,
-                         fingerprint='compiler-%s-not-saved' % attr)
-          facts['known'] = True
-          facts['dropped'] = dropped
-        elif unsafe and is_permutation_only(lib, m, m2):
-          ck.violation(msg + '  [elements inside a <frame>/<replicate> are written after their direct siblings: the '
-                       'reloaded model has the same objects in a different id order]', replay, bucket=KNOWN_FP,
-                       fingerprint=KNOWN_FP)
-          facts['known'] = True
         else:
-          raise Violation(msg, bucket='roundtrip17:' + diffs[0].field)
+          fps = self.classify(m, m2, spec, text, filedir, diffs, unsafe)
+          if not fps:
+            raise Violation(msg, bucket='roundtrip17:' + diffs[0].field)
+          for fp, why in fps:
+            ck.violation(msg + '  [' + why + ']', replay, bucket=fp, fingerprint=fp)
+          facts['known'] = True
+          facts['fps'] = [fp for fp, _ in fps]
       # second trip: saving the reloaded spec must give text that compiles to the same model again (normally the very
       # same text; a pure re-ordering of lines, e.g. a geom written after a child body, is cosmetic)
-      text2 = self.save(s2, 17)
+      text2 = text if facts['known'] else self.save(s2, 17)
       if text2 != text:
         ck.label('second-trip-text-differs')
         try:
@@ -220,7 +216,13 @@ class C32:
           raise Violation('%s: second-trip XML does not load: %s' % (name, str(e)[:300]), bucket='second-trip-rejected')
         lib.mj_deleteSpec(s3)
         d3 = modelcmp.compare(lib, m2, m3, mode='upstream', skip=('signature',))
-        if d3:
+        if d3 and unsafe and is_permutation_only(lib, m2, m3):
+          ck.violation('%s: the second save/reload permutes elements (first trip was order-preserving): %s  [frames are kept '
+                       'in the saved text and elements inside them are written after their direct siblings]' % (
+                           name, modelcmp.fmt(d3)), replay, bucket=KNOWN_FP, fingerprint=KNOWN_FP)
+          facts['known'] = True
+          facts['fps'] = [KNOWN_FP]
+        elif d3:
           a, b = text.split('\n'), text2.split('\n')
           i = next((i for i in range(min(len(a), len(b))) if a[i] != b[i]), min(len(a), len(b)))
           raise Violation('%s: second save/reload changes the model again: %s (texts differ first at line %d: %r vs %r)' % (
@@ -262,49 +264,80 @@ class C32:
               name, f, i[0], w, float(a2[i]), float(b2[i])), bucket='roundtrip6-float:' + f)
     return facts
 
-  def explained_by_dropped_directive(self, m, spec, text, filedir):
-    """Known writer gap: <compiler settotalmass> / <compiler inertiagrouprange> are not written.  Returns the list of
-    attributes whose re-insertion into the saved text makes the reloaded model identical to the original, else []."""
+  def classify(self, m, m2, spec, text, filedir, diffs, unsafe):
+    """Known writer findings.  Returns [(fingerprint, explanation)] that together explain the mismatch, or [] (= violation).
+    Attributes the writer does not save are re-inserted into the saved text ("repairs"); the smallest set of repairs after
+    which the reloaded model is identical (or differs only by the other known shapes) names the findings."""
+    import itertools
+    import re
     from vf import mj
     lib = self.lib
+    E = lib.enums
     comp = Struct(lib, 'mjSpec', spec).compiler
-    cand = {}
+    repairs = {}
     if comp.settotalmass > 0:
-      cand['settotalmass'] = repr(float(comp.settotalmass))
+      repairs['settotalmass'] = lambda t: re.sub(r'<compiler ', '<compiler settotalmass="%r" ' % float(comp.settotalmass), t, 1)
     igr = [int(x) for x in comp.inertiagrouprange]
     if igr != [0, 5]:
-      cand['inertiagrouprange'] = '%d %d' % tuple(igr)
-    if not cand or '<compiler ' not in text:
-      return []
-    import itertools
-    keys = sorted(cand)
-    for r in range(1, len(keys) + 1):
+      repairs['inertiagrouprange'] = lambda t: re.sub(r'<compiler ', '<compiler inertiagrouprange="%d %d" ' % tuple(igr), t, 1)
+    nch = [(lib.mj_id2name(m, E.mjOBJ_TEXTURE, i), int(m.tex_nchannel[i])) for i in range(m.ntex) if int(m.tex_nchannel[i]) != 3]
+    if nch and all(n for n, _ in nch):
+      def fix_nch(t):
+        for n, k in nch:
+          t = re.sub(r'(<texture [^>]*name="%s")' % re.escape(n), r'\1 nchannel="%d"' % k, t, 1)
+        return t
+      repairs['nchannel'] = fix_nch
+    WHY = dict(settotalmass='the writer does not save <compiler settotalmass>',
+               inertiagrouprange='the writer does not save <compiler inertiagrouprange>',
+               nchannel='the writer does not save <texture nchannel>')
+
+    def residual(ds, ma, mb):
+      """Explain remaining differences by the shape-based findings; returns list of (fp, why) or None."""
+      if not ds:
+        return []
+      if all(d.field == 'geom_dataid' for d in ds) and ma.ngeom == mb.ngeom:
+        t = np.asarray(ma.geom_type)
+        idx = np.flatnonzero(np.asarray(ma.geom_dataid) != np.asarray(mb.geom_dataid))
+        if all(int(t[i]) not in (E.mjGEOM_MESH, E.mjGEOM_SDF, E.mjGEOM_HFIELD) for i in idx):
+          return [('meshfit-geom-dataid', 'a primitive geom fitted to a mesh keeps geom_dataid=mesh id in the compiled '
+                   'model, but the saved XML drops the mesh reference (geom_dataid=-1 after reload)')]
+      if comp.fusestatic and all(d.kind == 'size' for d in ds):
+        na, nb = name_orders(lib, ma), name_orders(lib, mb)
+        lost = [k for k in ('geom', 'site', 'camera', 'light') if len(nb[k]) < len(na[k])]
+        if lost and all(set(x for x in nb[k] if x) <= set(x for x in na[k] if x) and len(nb[k]) <= len(na[k]) for k in na):
+          return [('fusestatic-framed-children-not-saved', 'with fusestatic, %s that sit inside a <frame> of a static body '
+                   'that was fused into its parent are missing from the saved XML' % '/'.join(lost))]
+      if unsafe and is_permutation_only(lib, ma, mb):
+        return [(KNOWN_FP, 'elements inside a <frame>/<replicate> are written after their direct siblings: the reloaded '
+                 'model has the same objects in a different id order')]
+      return None
+    keys = sorted(repairs)
+    for r in range(0, len(keys) + 1):
       for sub in itertools.combinations(keys, r):
-        ins = ''.join(' %s="%s"' % (k, cand[k]) for k in sub if (' %s="' % k) not in text.split('<compiler', 1)[1].split('>', 1)[0])
-        if not ins:
-          continue
-        t2 = text.replace('<compiler ', '<compiler' + ins + ' ', 1)
-        try:
-          mx, sx = self.reload(t2, filedir)
-        except mj.MjError:
-          continue
-        lib.mj_deleteSpec(sx)
-        if not modelcmp.compare(lib, m, mx, mode='upstream', skip=('signature',)):
-          return list(sub)
-    # not exactly reproduced by re-insertion (e.g. together with saveinertial / boundinertia the saved explicit inertials
-    # are pre-scaling values): still the same finding when only mass-property arrays differ
-    try:
-      m2, s2 = self.reload(text, filedir)
-    except mj.MjError:
-      return []
-    lib.mj_deleteSpec(s2)
-    fields = set(d.field for d in modelcmp.compare(lib, m, m2, mode='upstream', skip=('signature',)))
-    if 'settotalmass' in cand and fields <= MASS_SCALE_FIELDS:
-      return ['settotalmass']
-    if 'inertiagrouprange' in cand and fields <= (MASS_SCALE_FIELDS | MASS_FRAME_FIELDS) and 'settotalmass' not in cand:
-      return ['inertiagrouprange']
-    if len(cand) == 2 and fields <= (MASS_SCALE_FIELDS | MASS_FRAME_FIELDS):
-      return sorted(cand)
+        if not sub:
+          ds, mb = diffs, m2
+        else:
+          t2 = text
+          for k in sub:
+            t2 = repairs[k](t2)
+          try:
+            mb, sx = self.reload(t2, filedir)
+          except mj.MjError:
+            continue
+          lib.mj_deleteSpec(sx)
+          ds = modelcmp.compare(lib, m, mb, mode='upstream', skip=('signature',))
+        res = residual(ds, m, mb)
+        if res is None and sub:
+          fields = set(d.field for d in ds)
+          # not exactly reproduced by re-insertion (with saveinertial / boundinertia the saved explicit inertials are
+          # pre-scaling values): same finding when only mass-property arrays differ
+          if 'settotalmass' in sub and fields <= MASS_SCALE_FIELDS:
+            res = []
+          elif 'inertiagrouprange' in sub and fields <= (MASS_SCALE_FIELDS | MASS_FRAME_FIELDS):
+            res = []
+        if res is not None:
+          return [('compiler-%s-not-saved' % k if k != 'nchannel' else 'texture-nchannel-not-saved', WHY[k] +
+                   '; with the attribute re-inserted into the saved text the mismatch disappears') for k in sub] + res
     return []
 
   def lastxml_route(self, name, path):
@@ -378,12 +411,12 @@ def main(ck):
       if facts['known']:
         known_hits[0] += 1
         labels.append('known-finding-hit')
-        labels += ['dropped:' + a for a in facts.get('dropped', [])]
+        labels += ['finding:' + a for a in facts.get('fps', [])]
     finally:
       lib.mj_deleteSpec(s)
     nt = any(l in NT or l.startswith('compiler:') for l in labels)
-    keep = [l for l in labels if l in NT or l.startswith(('compiler:', 'replicate:')) or l in (
-        'mesh', 'hfield', 'texture', 'material', 'keyframe', 'fullkey', 'frame-order-unsafe', 'known-finding-hit', 'dropped:settotalmass', 'dropped:inertiagrouprange', 'pair',
+    keep = [l for l in labels if l in NT or l.startswith(('compiler:', 'replicate:', 'finding:')) or l in (
+        'mesh', 'hfield', 'texture', 'material', 'keyframe', 'fullkey', 'frame-order-unsafe', 'known-finding-hit', 'pair',
         'exclude', 'numeric', 'text', 'tuple', 'nuser', 'visual', 'statistic', 'meshfit', 'mocap', 'tendon:spatial',
         'tendon:fixed')]
     ck.case(nontrivial=nt, key=xml, sample=dict(route='xml', labels=keep[:14], xml=xml[:600]), labels=['route:xml'] + keep)
@@ -455,7 +488,12 @@ def main(ck):
         try:
           m1, m2, text = c.lastxml_route(rel, f)
           d = modelcmp.compare(lib, m1, m2, mode='upstream', skip=('signature',))
-          if d and not (unsafe and is_permutation_only(lib, m1, m2)):
+          pat = [p for p in c.upstream_fail if p in f]
+          if d and pat:
+            ck.violation('%s: mj_saveLastXML round trip changes the model: %s  [file matches "%s" in the maintainers\' own '
+                         'list of models that fail the save/load comparison]' % (rel, modelcmp.fmt(d), pat[0]), dict(file=rel),
+                         bucket='upstream-acknowledged:' + pat[0], fingerprint='upstream-acknowledged:' + pat[0])
+          elif d and not (unsafe and is_permutation_only(lib, m1, m2)):
             ck.violation('%s: mj_saveLastXML round trip changes the model: %s' % (rel, modelcmp.fmt(d)), dict(file=rel),
                          bucket='savelast:' + d[0].field)
           labels.append('route:saveLastXML')
